@@ -133,33 +133,93 @@ def describe(rec):
 
 
 _SIG_CACHE = {}
+_PREFETCHED = [False]
 
 
-def _lenient_holds(rec):
-    """Evaluate the lenient checker (proved sound in Spec.v) on this one record with coqc."""
-    import re, subprocess, sys, hashlib
-    key = hashlib.sha1(json.dumps([rec["input"], rec["obs"]], sort_keys=True).encode()).hexdigest()
-    if key in _SIG_CACHE:
-        return _SIG_CACHE[key]
+def _key(rec):
+    import hashlib
+    return hashlib.sha1(json.dumps([rec["input"], rec["obs"]], sort_keys=True).encode()).hexdigest()
+
+
+def _is_candidate(rec):
+    return any(op["t"] == "burnnative" and ob["ok"] and op.get("denom", "").startswith("tf/")
+               for op, ob in zip(rec["input"]["ops"], rec["obs"]["ops"]))
+
+
+def _env():
+    import sys
     chk = sys.modules.get("__main__")
     coq = getattr(chk, "COQ", os.path.join(os.path.dirname(os.path.dirname(os.path.dirname(os.path.abspath(__file__)))), "coq"))
     build = getattr(chk, "BUILD", "/tmp")
     wd = os.path.join(build, "run", ID)
     os.makedirs(wd, exist_ok=True)
-    path = os.path.join(wd, "sig_C15.v")
-    with open(path, "w") as f:
-        f.write("From Coq Require Import List ZArith String. Import ListNotations.\n" + CASES_HEADER + "\n")
-        f.write("Definition c : case := %s.\n" % to_coq_case(rec))
-        f.write("Definition L := Eval vm_compute in (violates c, mismatch c).\nPrint L.\n")
+    return coq, wd
+
+
+def _eval_lenient(recs, tag):
+    """One coqc run (per 300 records): which of these records satisfy the lenient checker AND agree with the model."""
+    import re, subprocess
+    coq, wd = _env()
+    ok = set()
+    for si in range(0, len(recs), 300):
+        sh = recs[si:si + 300]
+        path = os.path.join(wd, "sig_C15_%s_%d.v" % (tag, si // 300))
+        with open(path, "w") as f:
+            f.write("From Coq Require Import List ZArith String. Import ListNotations.\n" + CASES_HEADER + "\n")
+            f.write("Set Printing Width 1000000. Set Printing Depth 1000000.\n")
+            f.write("Definition cases : list (nat * case) := [\n")
+            f.write(";\n".join("  (%d%%nat, %s)" % (i, to_coq_case(r)) for i, r in enumerate(sh)))
+            f.write("\n].\nDefinition L := Eval vm_compute in map fst (filter (fun c => andb (negb (violates (snd c))) (negb (mismatch (snd c)))) cases).\nPrint L.\n")
+        try:
+            p = subprocess.run(["coqc", "-Q", coq, "Nib", path], cwd=wd, stdout=subprocess.PIPE, stderr=subprocess.STDOUT,
+                               text=True, timeout=1200)
+            m = re.search(r"L\s*=\s*\[(.*?)\]\s*:", p.stdout, re.S)
+            if p.returncode == 0 and m:
+                for x in re.split(r"[;\s]+", m.group(1)):
+                    if x.strip():
+                        ok.add(int(x))
+        except Exception:
+            pass
+        for i, r in enumerate(sh):
+            _SIG_CACHE[_key(r)] = i in ok
+        ok = set()
+
+
+def _prefetch():
+    """First use in a run: evaluate every candidate record of this run's traces in one batch."""
+    if _PREFETCHED[0]:
+        return
+    _PREFETCHED[0] = True
+    _, wd = _env()
+    recs, seen = [], set()
     try:
-        p = subprocess.run(["coqc", "-Q", coq, "Nib", path], cwd=wd, stdout=subprocess.PIPE, stderr=subprocess.STDOUT,
-                           text=True, timeout=300)
-        m = re.search(r"L\s*=\s*\((true|false),\s*(true|false)\)", p.stdout)
-        res = bool(m) and m.group(1) == "false" and m.group(2) == "false"
-    except Exception:
-        res = False
-    _SIG_CACHE[key] = res
-    return res
+        names = sorted(fn for fn in os.listdir(wd) if fn.startswith("trace_") and fn.endswith(".jsonl"))
+    except OSError:
+        names = []
+    for fn in names:
+        for line in open(os.path.join(wd, fn)):
+            try:
+                r = json.loads(line)
+            except Exception:
+                continue
+            if "input" in r and "obs" in r and _is_candidate(r):
+                k = _key(r)
+                if k not in seen:
+                    seen.add(k)
+                    recs.append(r)
+    if recs:
+        _eval_lenient(recs, "batch")
+
+
+def _lenient_holds(rec):
+    """Does the lenient checker (proved sound in Spec.v) hold on this record and does the model agree with it?
+    Batched over the run's traces on first use; a record not seen there (shrinking, search) is evaluated alone."""
+    k = _key(rec)
+    if k not in _SIG_CACHE:
+        _prefetch()
+    if k not in _SIG_CACHE:
+        _eval_lenient([rec], "single")
+    return _SIG_CACHE.get(k, False)
 
 
 def signature(rec):
@@ -167,9 +227,7 @@ def signature(rec):
     i.e. the sole reason the statement-to-the-letter fails is a MsgBurnNative by which the signer burnt exactly the
     stated amount of its own tf coins.  Anything else gets a different signature and is reported as a VIOLATION."""
     kinds = sorted({op["t"] for op in rec["input"]["ops"]})
-    bn = any(op["t"] == "burnnative" and ob["ok"] and op.get("denom", "").startswith("tf/")
-             for op, ob in zip(rec["input"]["ops"], rec["obs"]["ops"]))
-    if bn and _lenient_holds(rec):
+    if _is_candidate(rec) and _lenient_holds(rec):
         return {"kind": "burnnative-moves-tf-supply"}
     return {"kind": "tokenfactory-authority", "ops": kinds}
 
